@@ -69,6 +69,23 @@ pub fn c11_step(cx: &StepCtx<'_, impl Sized>, _info: &InputInfo, st: &mut C11Sta
             }
         }
     }
+    // --- every identity that becomes Down gets its own forget-timer -------
+    // (whatever the route: timeout, gossip, apply_many, a rename of a record
+    // that was Down already: forget-timers match by identity)
+    if cx.out.panic.is_none() {
+        for new in post.members.iter().filter(|m| m.state() == State::Down) {
+            let had = pre.members.iter().any(|m| m.id() == new.id() && m.state() == State::Down);
+            if !had {
+                let n = cx.out.timers().filter(|(after, k)| *k == TimerKey::RemoveDown(*new.id()) && after.as_millis() as u64 == cfg.remove_down).count();
+                if n != 1 {
+                    return Err(viol(
+                        "c11:down-without-forget-timer",
+                        format!("{} became a Down record in this call but {} RemoveDown({}) timers (after {}ms) were scheduled; timers: {:?}", show_member(new), n, new.id().show(), cfg.remove_down, cx.out.timers().collect::<Vec<_>>()),
+                    ));
+                }
+            }
+        }
+    }
     if let Ev::Timer(TimerKey::RemoveDown(i)) = cx.ev {
         // the forget-timer removes exactly that identity, and only if Down
         for old in &pre.members {
